@@ -71,6 +71,22 @@ def table_case(draw):
     rows = []
     for _ in range(draw(st.sampled_from([0, 1, 2, 3, 4, 6]))):
         rows.append(tuple(None if draw(st.integers(0, 4)) == 0 else draw(TYPES[k][1]) for k in kinds))
+    if rows and draw(st.integers(0, 3)) == 0:
+        # a row whose amounts cancel those of an earlier row (the column totals to zero, the cells do not)
+        base = draw(st.sampled_from(rows))
+        neg = []
+        for k, v in zip(kinds, base):
+            if v is None:
+                neg.append(None)
+            elif k == 'amount':
+                neg.append(amount.Amount(-v.number, v.currency))
+            elif k == 'position':
+                neg.append(position.Position(amount.Amount(-v.units.number, v.units.currency), v.cost))
+            elif k == 'inventory':
+                neg.append(-v)
+            else:
+                neg.append(v)
+        rows.append(tuple(neg))
     fmt = draw(st.none() | st.dictionaries(st.sampled_from(CURRENCIES), st.integers(0, 4), min_size=0, max_size=4))
     return {'kinds': kinds, 'names': [f'c{i}' for i in range(n)], 'rows': rows, 'precisions': fmt}
 
